@@ -13,7 +13,9 @@ shutil.rmtree(wt, ignore_errors=True)
 os.makedirs("/tmp/rc", exist_ok=True)
 subprocess.run("git -C /repo worktree prune; git -C /repo worktree add -q --detach %s HEAD" % wt, shell=True, check=True)
 try:
-    subprocess.run(["git", "apply", d + "/patch.diff"], cwd=wt, check=True)
+    # later fix commits may have moved the context lines: fall back to patch(1) with fuzz
+    if subprocess.run(["git", "apply", d + "/patch.diff"], cwd=wt).returncode != 0:
+        subprocess.run("patch -p1 -F3 --no-backup-if-mismatch < %s/patch.diff" % d, shell=True, cwd=wt, check=True)
     p = subprocess.run("./check %s %s" % (prop, tier), shell=True, cwd="/verif", env=dict(os.environ, VERIF_REPO=wt),
                        stdout=subprocess.PIPE, stderr=subprocess.STDOUT, text=True)
     lines = p.stdout.splitlines()
